@@ -49,6 +49,7 @@ IDIOMS = {
     'I8': 'E.iter().sum::<T>()  =>  idiom_sum_T(E)',
     'I9': 'X.checked_sub(Y).unwrap_or_default()  =>  idiom_checked_sub_or_default(X, Y)',
     'I10': '&sha256d::Hash::hash(&X)[A..B]  =>  &idiom_sha256d_slice(&X, A, B)   (Index<Range> on the hash newtype)',
+    'I11': 'X.to_le_bytes()  =>  idiom_le_bytes(X)   (result as Vec<u8>; only ever passed to extend())',
     'A1': 'abstract-expression: `expr` => havoc::<T>() (unconstrained value)',
 }
 
@@ -442,7 +443,15 @@ def apply_idiom(ed, text, base, body_rel, loops, rest, item_id, log, rel, src):
             h = re.match(r'^([\w\.]+)\.extend\((.*)\)$', flat)
             if not h:
                 raise GenError('I7 shape mismatch: %s' % flat)
-            new = 'idiom_extend(&mut %s, %s)' % h.groups()
+            # only the call prefix is rewritten, the argument text stays (and may hold an I11)
+            pre = re.match(r'^([\w\.]+)\.extend\(', anchor)
+            b = a + pre.end()
+            new = 'idiom_extend(&mut %s, ' % h.group(1)
+        elif rule == 'I11':
+            h = re.match(r'^([\w\.]+)\.to_le_bytes\(\)$', flat)
+            if not h:
+                raise GenError('I11 shape mismatch: %s' % flat)
+            new = 'idiom_le_bytes(%s)' % h.group(1)
         elif rule == 'I8':
             h = re.match(r'^([\w\.]+)\.iter\(\)\.sum::<(\w+)>\(\)$', flat)
             if not h:
